@@ -217,6 +217,9 @@ int main(int argc, char **argv) {
                 c.ops.push_back(r2);
             }
         }
+        if (*gx::chance(12)) {   // the very first frames this interface ever sees are Probes: the mapper's Discover comes after the first burst (observations made before it are reported like any other)
+            for (size_t k = 1; k < c.ops.size(); k++) if (c.ops[k].kind == K_BURST && c.ops[k].arg(2) == 0) { Op first = c.ops[0]; c.ops.erase(c.ops.begin()); c.ops.insert(c.ops.begin() + (long)k, first); break; }
+        }
         return c;
     });
     bool ok = run_cases(a, ev, "c07-histories", a.n(8000, 150000), 100, gen, run);
